@@ -1425,14 +1425,24 @@ impl Vm {
     #[inline(always)]
     fn call_value(&mut self, value: Value, arg_count: usize) -> Result<(), Error> {
         match value {
+            // The bound method may only be reachable through the stack slot that the receiver
+            // replaces, so no borrow of it may be alive while the call (which can collect) runs.
             Value::ObjBoundMethod(bound) => {
-                self.poke(arg_count, bound.borrow().receiver);
-                self.call_closure(bound.borrow().method, arg_count)
+                let (receiver, method) = {
+                    let bound = bound.borrow();
+                    (bound.receiver, bound.method)
+                };
+                self.poke(arg_count, receiver);
+                self.call_closure(method, arg_count)
             }
 
             Value::ObjBoundNative(bound) => {
-                self.poke(arg_count, bound.borrow().receiver);
-                self.call_native(bound.borrow().method, arg_count)
+                let (receiver, method) = {
+                    let bound = bound.borrow();
+                    (bound.receiver, bound.method)
+                };
+                self.poke(arg_count, receiver);
+                self.call_native(method, arg_count)
             }
 
             Value::ObjClosure(function) => self.call_closure(function, arg_count),
@@ -1469,9 +1479,10 @@ impl Vm {
         let receiver = self.peek(arg_count);
         let class = match receiver {
             Value::ObjInstance(instance) => {
-                if let Some(value) = instance.borrow().fields.get(&name) {
-                    self.poke(arg_count, *value);
-                    return self.call_value(*value, arg_count);
+                let field = instance.borrow().fields.get(&name).copied();
+                if let Some(value) = field {
+                    self.poke(arg_count, value);
+                    return self.call_value(value, arg_count);
                 }
                 instance.borrow().class
             }
